@@ -4,6 +4,7 @@ import (
 	"encoding/json"
 	"flag"
 	"fmt"
+	"golang.org/x/tools/go/ssa"
 	"os"
 	"path/filepath"
 	"regexp"
@@ -196,6 +197,7 @@ func cmdCheck(args []string) int {
 			}
 		}
 	}
+	promoted := map[string]map[int]*ssa.Const{}
 	if len(pd.ScopeFiles) > 0 {
 		inScope := map[string]bool{}
 		for _, f := range pd.ScopeFiles {
@@ -227,10 +229,21 @@ func cmdCheck(args []string) int {
 					}
 				}
 				for _, k := range rep.notUnder {
-					if !known[k] {
-						fmt.Printf("NOTE property=%s new function %s (%s) is not in the pinned sweep list: it is not checked by this sweep\n", id, k, e.relFile(e.funcs[k]))
-						rep.newFuncs = append(rep.newFuncs, k)
+					if known[k] {
+						continue
 					}
+					// a new function that a swept, unannotated entry function calls unconditionally (in
+					// its entry block) with its own parameters and constants receives exactly the inputs
+					// that function receives: it is checked like a swept function, with those constants
+					if caller, consts := e.entryEquivalent(e.funcs[k], sweepSet); caller != "" {
+						fmt.Printf("NOTE property=%s new function %s (%s) is checked as part of the sweep: %s passes it its own parameters unconditionally\n", id, k, e.relFile(e.funcs[k]), caller)
+						targets = append(targets, k)
+						sweepSet[k] = true
+						promoted[k] = consts
+						continue
+					}
+					fmt.Printf("NOTE property=%s new function %s (%s) is not in the pinned sweep list: it is not checked by this sweep\n", id, k, e.relFile(e.funcs[k]))
+					rep.newFuncs = append(rep.newFuncs, k)
 				}
 			}
 		}
@@ -259,7 +272,7 @@ func cmdCheck(args []string) int {
 			defer func() { <-sem; done <- struct{}{} }()
 			// every safety and call-site obligation of a function verified for this property is
 			// a supporting obligation of the property (a failed one would make later ones vacuous)
-			opts := &fnOpts{houdini: true, props: []string{id}, spec: e.special[j.key]}
+			opts := &fnOpts{houdini: true, props: []string{id}, spec: e.special[j.key], paramConst: promoted[j.key]}
 			if pd.Frames && sweepSet[j.key] {
 				opts.frames, opts.noSafety, opts.props = true, true, nil
 			}
@@ -643,6 +656,56 @@ func (e *Engine) scanAssumptions() []string {
 	sort.Strings(out)
 	out = append(out, fmt.Sprintf("%d external/trusted contracts in total (those used are listed in trusted_base)", n))
 	return out
+}
+
+// entryEquivalent: is fn called, in the entry block of a swept function without a contract, with arguments
+// that are that function's own parameters (each at most once) or constants? Returns the caller and the
+// constant bindings by parameter index.
+func (e *Engine) entryEquivalent(fn *ssa.Function, swept map[string]bool) (string, map[int]*ssa.Const) {
+	if fn == nil || e.contractFor(fn) != nil {
+		return "", nil
+	}
+	var callers []string
+	for k := range swept {
+		callers = append(callers, k)
+	}
+	sort.Strings(callers)
+	for _, k := range callers {
+		f := e.funcs[k]
+		if f == nil || len(f.Blocks) == 0 || e.contractFor(f) != nil {
+			continue
+		}
+		for _, in := range f.Blocks[0].Instrs {
+			ci, ok := in.(ssa.CallInstruction)
+			if !ok {
+				continue
+			}
+			cc := ci.Common()
+			if cc.IsInvoke() || cc.StaticCallee() != fn {
+				continue
+			}
+			consts := map[int]*ssa.Const{}
+			used := map[*ssa.Parameter]bool{}
+			good := len(cc.Args) == len(fn.Params)
+			for i, a := range cc.Args {
+				switch x := a.(type) {
+				case *ssa.Parameter:
+					if used[x] {
+						good = false
+					}
+					used[x] = true
+				case *ssa.Const:
+					consts[i] = x
+				default:
+					good = false
+				}
+			}
+			if good {
+				return k, consts
+			}
+		}
+	}
+	return "", nil
 }
 
 func (r *report) runSpecial(name string) {
